@@ -144,9 +144,11 @@ def bfs_prefixes(g):
     return pre
 
 
-def replay_path(ctx, g, path, backing):
+def replay_path(ctx, g, path, backing, traces, metas):
     init = bytes(g.states[g.init[0]]["mem"])
-    ar = mb.BufArena(backing, init)
+    ar = mb.make_arena(backing, init, traces, metas)
+    if ar is None:
+        return None, "%s: arena setup failed" % backing
     tr = ar.header()
     tr["ev"] = []
     div = None
@@ -154,6 +156,9 @@ def replay_path(ctx, g, path, backing):
         st = g.states[dst]
         res = st["res"]
         ev = ar.apply(model_op(res))
+        if ev is None:
+            div = "%s: item access skipped (from_buffer view longer than its object)" % backing
+            break
         tr["ev"].append(ev)
         ctx.case()
         problems = []
@@ -202,12 +207,13 @@ def spec_to_code(ctx, jobs, traces, metas, divergences):
     pre = bfs_prefixes(g)
     edges = [(n, e) for n in pre for e in g.succ(n)]
     ctx.rng.shuffle(edges)
-    budget = 1500 if q else len(edges)
+    budget = 1000 if q else len(edges)
     for idx, (n, e) in enumerate(edges[:budget]):
         backing = mb.BACKINGS[idx % 3]
-        tr, div = replay_path(ctx, g, pre[n] + [e], backing)
-        traces.append(tr)
-        metas.append({"kind": "replay", "backing": backing})
+        tr, div = replay_path(ctx, g, pre[n] + [e], backing, traces, metas)
+        if tr is not None:
+            traces.append(tr)
+            metas.append({"kind": "replay", "backing": backing})
         if div:
             divergences.append(div)
     ctx.cov.setdefault("graphs", []).append({"module": "Buffer", "states": len(g.states), "edges": len(edges),
@@ -219,7 +225,7 @@ def spec_to_code(ctx, jobs, traces, metas, divergences):
     g2 = tlaval.load_dot(dump + ".dot")
     states = sorted(g2.states.items())
     ctx.rng.shuffle(states)
-    budget = 1200 if q else 25000
+    budget = 800 if q else 20000
     for idx, (_sid, st) in enumerate(states[:budget]):
         c = st["c"]
         backing = mb.BACKINGS[idx % 3]
@@ -227,7 +233,7 @@ def spec_to_code(ctx, jobs, traces, metas, divergences):
             n = c["n"]
             pad = 2
             init = bytes([0xE0, 0xE1]) + bytes(range(1, n + 1)) + bytes([0xE2, 0xE3]) + (b"\xE4" if n % 2 else b"")
-            ar = mb.BufArena(backing, init)
+            ar = mb.make_arena(backing, init, traces, metas)
             k = norm_key(c["key"])
             ops = [{"op": "buffer", "i": pad, "n": n}, {"op": "getslice", "b": 1, "key": k},
                    {"op": "setslice", "b": 1, "key": k, "val": [100 + x for x in range(1, c["vl"] + 1)]}]
@@ -237,23 +243,27 @@ def spec_to_code(ctx, jobs, traces, metas, divergences):
             init = bytes(range(1, conf[2] + 1))
             if backing == "array_H" and len(init) % 2:
                 backing = "bytearray"
-            ar = mb.BufArena(backing, init)
+            ar = mb.make_arena(backing, init, traces, metas)
             ops = [{"op": "move", "i": c["d"], "j": c["s"], "n": c["n"]}]
         else:
             ol = c["ol"]
             init = bytes(range(1, ol + 3))
             if backing == "array_H" and len(init) % 2:
                 backing = "cdata"
-            ar = mb.BufArena(backing, init)
+            ar = mb.make_arena(backing, init, traces, metas)
             ops = [{"op": "frombuf", "i": 1, "j": ol, "n": c["isz"], "b": c["k"] + 1 if c["fx"] else 0}]
             ops += [{"op": "fbget", "b": 1, "i": 0}, {"op": "fbset", "b": 1, "i": 0, "val": list(range(60, 60 + c["isz"]))}]
+        if ar is None:
+            continue
         tr = ar.header()
         tr["ev"] = []
         for op in ops:
             if op["op"] in ("fbget", "fbset") and (not ar.fbs or len(ar.fbs[0]) == 0):
                 continue
-            tr["ev"].append(ar.apply(op))
-            ctx.case()
+            e = ar.apply(op)
+            if e is not None:
+                tr["ev"].append(e)
+                ctx.case()
         traces.append(tr)
         metas.append({"kind": "case", "mode": c["mode"], "backing": backing})
     ctx.cov["graphs"].append({"module": "BufferSlice", "states": len(states), "cases_executed": min(budget, len(states))})
@@ -271,9 +281,11 @@ def rand_bound(rng, n):
     return rng.choice([10 ** 6, -10 ** 6, 2 ** 30, -2 ** 30])
 
 
-def random_trace(ctx, rng, backing, n, nops):
+def random_trace(ctx, rng, backing, n, nops, traces=None, metas=None):
     init = bytes(rng.getrandbits(8) for _ in range(n))
-    ar = mb.BufArena(backing, init)
+    ar = mb.make_arena(backing, init, traces, metas) if traces is not None else mb.BufArena(backing, init)
+    if ar is None:
+        return None
     tr = ar.header()
     ev = tr["ev"] = []
     for _ in range(nops):
@@ -343,8 +355,11 @@ def random_trace(ctx, rng, backing, n, nops):
                 op.update(b=b, i=rng.randrange(ln), val=[rng.getrandbits(8) for _ in range(isz)])
         if op is None:
             continue
-        ev.append(ar.apply(op))
-        ctx.case((backing, o, ev[-1]["st"]))
+        e = ar.apply(op)
+        if e is None:
+            continue
+        ev.append(e)
+        ctx.case((backing, o, e["st"]))
     return tr
 
 
@@ -358,8 +373,10 @@ def code_to_spec(ctx, traces, metas):
         if backing == "array_H":
             n += n % 2
         nops = 40 if n < 1024 else 25
-        traces.append(random_trace(ctx, rng, backing, n, nops))
-        metas.append({"kind": "random", "backing": backing, "n": n})
+        tr = random_trace(ctx, rng, backing, n, nops, traces, metas)
+        if tr is not None:
+            traces.append(tr)
+            metas.append({"kind": "random", "backing": backing, "n": n})
     ctx.sample({"kind": "random buffer history", "meta": metas[-1],
                 "events": [{k: e[k] for k in ("op", "b", "i", "j", "n", "st", "out")} for e in traces[-1]["ev"][:10]]}, limit=3)
 
@@ -429,9 +446,13 @@ def run(ctx):
 def replay(ctx, obj):
     rp = obj["replay"]
     t0 = rp["trace"]
-    ar = mb.BufArena(t0["backing"], bytes(t0["mem"]))
-    tr = ar.header()
-    tr["ev"] = [ar.apply(dict(e)) for e in t0["ev"][:rp["failing_event_index"]]]
+    extra, em = [], []
+    ar = mb.make_arena(t0["backing"], bytes(t0["mem"]), extra, em)
+    if ar is None:
+        tr = extra[0]
+    else:
+        tr = ar.header()
+        tr["ev"] = [x for x in (ar.apply(dict(e)) for e in t0["ev"][:rp["failing_event_index"]]) if x is not None]
     bad = validate(ctx, [tr])
     ctx.cov["states"] = max(ctx.cov["states"], 1)
     judge(ctx, [tr], [rp["meta"]], bad)
